@@ -4083,7 +4083,7 @@ pub fn c09_keep_alive(nd: &mut Nondet) {
     let timeout_ms = (2 + nd.choose("timeout_ticks", 2)) * TICK;
     let keep_alive = nd.bool("keep_alive_protocol");
     let mut manager = TransportManagerBuilder::new().build();
-    let (mut service, _transport_end) = ts::new_service_with(&mut manager, Duration::from_millis(timeout_ms), keep_alive);
+    let (mut service, transport_end) = ts::new_service_with(&mut manager, Duration::from_millis(timeout_ms), keep_alive);
     let peer = nd.peer_id_fixed(1);
     // reference: live connections, primary first: (id, last activity [ms], downgraded)
     let mut conns: Vec<(usize, u64, bool)> = Vec::new();
@@ -4092,7 +4092,21 @@ pub fn c09_keep_alive(nd: &mut Nondet) {
     let mut now = 0u64;
     let steps = param("steps", 5);
     for _ in 0..steps {
-        match nd.choose("event", 5) {
+        match nd.choose("event", 6) {
+            5 => {
+                // the remote opened a substream of this protocol on one of the connections (negotiated by the connection task)
+                if conns.is_empty() { assume(false); }
+                let k = nd.choose("which", conns.len() as u64) as usize;
+                let id = conns[k].0;
+                let io = ScriptedIo::new(nd, Vec::new());
+                let substream = Substream::new_verif(peer, SubstreamId::from(500 + next_id), Box::new(io), ProtocolCodec::UnsignedVarint(Some(16)));
+                let queue = &channels.iter().find(|(c, _)| *c == id).expect("channel of a live connection").1;
+                check("c09.transport-event-is-queued", ts::substream_opened(&transport_end, queue, peer, ConnectionId::from(id), substream));
+                if keep_alive { conns[k].1 = now; conns[k].2 = false; }
+                let _ = ts::poll_service(&mut service);
+                for c in conns.iter_mut() { if now >= c.1 + timeout_ms { c.2 = true; } }
+                cover("c09.substream-opened");
+            }
             0 => {
                 if conns.len() >= 2 { assume(false); }
                 let id = next_id; next_id += 1;
